@@ -237,6 +237,9 @@ def impl(c):
             if c['uniform'] or m < 3: cen = [a + (b - a) * i / max(m - 1, 1) for i in range(m)]
             else:
                 cen = sorted({a + (b - a) * (i + (c['jit'][i] - 0.4 if 0 < i < m - 1 else 0)) / (m - 1) for i in range(m)})
+            # dyadic centres (multiples of 2^-6 in the data's own scale): edges and midpoints are then exact in float64, so the
+            # implementation and the exact model take the same in-range/out-of-range decisions at the ends of the data
+            cen = sorted({round(x * 64) / 64 for x in cen})
             cen = [x * scale for x in cen]
             if 'centres_abs' in c: cen = list(c['centres_abs'])
             method = 'simps' if c['simps'] else 'trapz'
@@ -312,11 +315,12 @@ def compare(c, io, mo):
             mw, mv = _fl(m['wave']), _fl(m['value'])
             exact = st['p']['k'] in ('crop', 'trim', 'append')
             rel = 0.0 if exact else 1e-11
+            atol = 0.0 if exact else 1e-11 * (1.0 + max([abs(x) for x in st['before']['value']] + [0.0]))
             got = st.get('returned', st['after'])
             if 'returned' in st and st['after'] != st['before']: return f'{what}(copy=True) changed the caller'
             st = dict(st, after=got)
             if not all_close(mw, st['after']['wave'], rel): return f"{what} {st['p']}: wave impl {st['after']['wave']} model {mw}"
-            if not all_close(mv, st['after']['value'], rel, 1e-300): return f"{what} {st['p']}: value impl {st['after']['value']} model {mv}"
+            if not all_close(mv, st['after']['value'], rel, atol): return f"{what} {st['p']}: value impl {st['after']['value']} model {mv}"
         return None
     if k == 'integrate':
         for key, m in zip(('I', 'I2'), mo):
@@ -421,7 +425,6 @@ def oracle(c, io):
         bins = io['bins']
         if len(bins) != len(cen): return f'{tag}: {len(bins)} bins for {len(cen)} centres'
         fl, fr = _fill(c['fill'])
-        scale = cen[0] / cen[0]  # 1.0
         uniform = all(close(cen[i + 1] - cen[i], cen[1] - cen[0], 1e-12) for i in range(len(cen) - 1))
         finite = all(np.isfinite(x) for x in bins)
         if min(c['value']) >= 0 and fl >= 0 and fr >= 0 and finite and not (c['simps'] and c['pp']):
